@@ -235,6 +235,12 @@ def run(ctx):
     ctx.rule("R06.12", "the foreign-content end-tag rule never pops an HTML element further down the stack (body, html stay open while the mode says so)")
     from .C02 import foreign_end_tag_stops_at_html
     ctx.guard("R06.12", "foreign-end-html", lambda: foreign_end_tag_stops_at_html(ctx, "R06.12"))
+    ctx.rule("R06.13", "'reset the insertion mode appropriately' selects the standard's mode (R02.10): a template closed after </head> must not fall back to 'before head' and grow a second head")
+    from .C02 import r02_10
+    ctx.guard("R06.13", "reset-mode", lambda: ctx.under("R06.13", lambda: r02_10(ctx)))
+    ctx.rule("R06.14", "mirroring an option into selectedcontent REPLACES the old children on every path (R20.9): no stale text node left beside the copy")
+    from .C20 import r20_9
+    ctx.guard("R06.14", "selectedcontent", lambda: ctx.under("R06.14", lambda: r20_9(ctx)))
     ctx.rule("R06.11", "the sink merges inserted text into the text node directly before the insertion point (RcDom append_before_sibling): no adjacent text siblings from foster-parented text")
     from .C20 import r20_8
     def _merge():
